@@ -196,6 +196,7 @@ package keeper
 //@   props C24,C12
 //@   modifies nothing
 //@   ensures [unstaking-not-jailed] result == nil ==> application.Status == 1 && !application.Jailed
+//@   ensures [due-entry-not-refused] application.Status == 1 && !application.Jailed ==> result == nil
 
 // the mature queue is read from the queue prefix up to (and including) the key of the BLOCK time
 //@ func (Keeper).unstakingApplicationsIterator
